@@ -66,14 +66,14 @@ def fields_of(m) -> tuple:
     return (m.node_id, m.child_id, m.command, m.ack, m.message_type, m.payload)
 
 
-def check_codec(version: str, f: tuple) -> list:
+def check_codec(version: str, f: tuple, sch=None) -> list:
     viols = []
     semi = ";" in f[5]
 
     def bad(k, what):
         viols.append((f"C01|{k}|semicolon={semi}", f"[{version}] message {f}: {what}", {"version": version, "fields": list(f), "mode": "codec"}))
 
-    sch = schema(version)
+    sch = sch or schema(version)
     want = R.enc(*f)
     try:
         line = sch.dump(Message(*f))
@@ -236,10 +236,12 @@ def after_activity(version: str) -> list:
     s.send(Message(255, 255, 3, 0, 20, ""))
     grid = field_grid(QUICK)
     n = 0
+    own = MessageSchema()  # a decoder of its own: what this pass sees does not depend on earlier jobs of the worker
+    own.set_protocol(get_protocol(version))
     for head in grid:
         for p in ("", "a;b"):
             n += 1
-            for k, w, rep in check_codec(version, head + (p,)):
+            for k, w, rep in check_codec(version, head + (p,), own):
                 rep = dict(rep, mode="after-activity")
                 viols.append((k.replace("C01|", "C01|after-activity-", 1), "in a process that has loaded and saved a persistence file and run a gateway session: " + w, rep))
         if len(viols) > 20:
